@@ -41,6 +41,7 @@ def loop_paths(body, header, loop, limit=4000):
 def fanout_sweep(ctx, F, prefix, method):
     b = F.impl_method("futures_sink::Sink", FAN, method)
     ctx.touch(b)
+    b = F.inlined(b)       # a shared sweep helper taking the per-element operation as a closure is looked through
     loops_ = flow.loops(b)
     cc = child_calls(b)
     if not ctx.check(len(loops_) == 1 and cc, prefix + ".sweep-shape", "fanout:%s:shape" % method, "FanoutMany::%s is one sweep loop over the entries calling the element's %s" % (method, method), b.span):
@@ -72,6 +73,15 @@ def fanout_sweep(ctx, F, prefix, method):
                 starts.append(flow.const_of(d[3]["op"]) if d[3]["k"] == "use" else None)
     ctx.check(starts == [0], prefix + ".sweep-from-start", "fanout:%s:not-from-zero" % method,
               "FanoutMany::%s starts its sweep at entry 0 on every call (initial index: %s)" % (method, starts), b.span)
+    # locals whose value is what the method returns (the return place itself, and the return places of helpers inlined into it)
+    retl = {0}
+    grew = True
+    while grew:
+        grew = False
+        for i2, j2, pl, rv, s2 in b.assigns():
+            if pl["l"] in retl and not pl["p"] and rv["k"] == "use" and rv["op"].get("k") in ("copy", "move") and not rv["op"]["pl"]["p"] and rv["op"]["pl"]["l"] not in retl:
+                retl.add(rv["op"]["pl"]["l"])
+                grew = True
     bad = []
     n_iter = 0
     for p in paths:
@@ -89,7 +99,7 @@ def fanout_sweep(ctx, F, prefix, method):
         if ok and leaves:
             # leaving the sweep before the bound is reached is legitimate only (a) to return Pending, (b) on the branch that
             # established "this is the last entry" (idx == len - 1)
-            pend = any(rv["k"] == "agg" and rv.get("variant") == "Pending" and pl["l"] == 0 for (i2, j2, pl, rv, s2) in b.assigns() if i2 in blocks or i2 in flow.reach_avoiding(b, [blocks[-1]], lp))
+            pend = any(rv["k"] == "agg" and rv.get("variant") == "Pending" and pl["l"] in retl for (i2, j2, pl, rv, s2) in b.assigns() if i2 in blocks or i2 in flow.reach_avoiding(b, [blocks[-1]], lp))
             last = False
             for x in blocks:
                 sc = flow.switch_condition(b, x)
